@@ -192,9 +192,13 @@ class RDMol2StereoMolGraph:
                 perm = atom.GetUnsignedProp("_chiralPermutation")
                 tbp_order = self._tbp_atom_order_permutation_dict[perm]
                 neigh_atoms = tuple([neighbors[i] for i in tbp_order])
+                # neigh_atoms are in TB1 order: the axis runs from the first
+                # to the last atom, the other three are equatorial and
+                # anticlockwise when viewed along the axis (parity -1)
+                neigh_atoms = tuple([neigh_atoms[i] for i in (0, 4, 1, 2, 3)])
                 tbp_atoms = (id_atom_map[atom_idx], *neigh_atoms)
                 assert len(tbp_atoms) == 6
-                atom_stereo = TrigonalBipyramidal(tbp_atoms, 1)
+                atom_stereo = TrigonalBipyramidal(tbp_atoms, -1)
 
             elif chiral_tag == Chem.ChiralType.CHI_OCTAHEDRAL:
                 perm = atom.GetUnsignedProp("_chiralPermutation")
